@@ -24,6 +24,8 @@ one() {
   cp /verif/known_findings.json $D/verif/
   if ! (cd $D/repo && patch -p1 -s --no-backup-if-mismatch < /verif/seeded/$NAME/patch.diff >/dev/null 2>&1); then echo "$NAME: patch does not apply"; rm -rf $D; return; fi
   RES=""; DETAIL=""
+  # a seed that applies but no longer type-checks (a later commit added a caller) needs a base_commit
+  if GOMAXPROCS=4 /verif/bin/mrocheck -repo $D/repo -verif $D/verif -property C02 2>&1 | grep -q 'load failure'; then echo "$NAME: does not compile on this tree (give it a base_commit)"; rm -rf $D; return; fi
   for P in $(/verif/bin/mrocheck -list); do
     O=$(GOMAXPROCS=4 /verif/bin/mrocheck -repo $D/repo -verif $D/verif -property $P 2>&1 | grep -v '^WARNING' | grep '^VIOLATION\|^UNDECIDED' | grep -v '^VIOLATION property' | cut -d' ' -f1,2)
     if [ -n "$BASE" ]; then
